@@ -18,6 +18,9 @@ jsonable = Union[None, str, bool, float, int,
 
 class Serializer:
 
+    RESERVED_DICT_KEYS = frozenset({'_is_task', '_is_enum', '_is_dict'})
+    """Keys that mark serialized tasks, enums, and wrapped dictionaries."""
+
     def is_serialized_task(self, serialized: jsonable) -> bool:
         return isinstance(serialized, dict) and bool(serialized.get('_is_task', False))
 
@@ -69,10 +72,15 @@ class Serializer:
         elif isinstance(value, tuple):
             return [self.serialize_value(item) for item in value]
         elif isinstance(value, frozendict):
-            return {
+            serialized_dict = {
                 ensure_dict_key_str(key, exception_type=SerializationError): self.serialize_value(value)
                 for key, value in value.items()
             }
+            if any(key in self.RESERVED_DICT_KEYS for key in serialized_dict):
+                # Wrap dictionaries that could otherwise be mistaken
+                # for a serialized task or enum.
+                return {'_is_dict': True, 'items': serialized_dict}
+            return serialized_dict
         elif isinstance(value, Enum):
             return self.serialize_enum(value)
         elif ((value is None)
@@ -89,11 +97,17 @@ class Serializer:
             return self.deserialize_task(cast(dict[str, jsonable], value), result_meta=None)
         elif self.is_serialized_enum(value):
             return self.deserialize_enum(cast(dict[str, jsonable], value))
+        elif self.is_serialized_dict(value):
+            items = cast(dict[str, jsonable], cast(dict[str, jsonable], value)['items'])
+            return {key: self.deserialize_value(item) for key, item in items.items()}
         elif isinstance(value, list):
             return [self.deserialize_value(item) for item in value]
         elif isinstance(value, dict):
             return {key: self.deserialize_value(item) for key, item in value.items()}
         return value
+
+    def is_serialized_dict(self, serialized: jsonable) -> bool:
+        return isinstance(serialized, dict) and bool(serialized.get('_is_dict', False))
 
     def is_serialized_enum(self, serialized: jsonable) -> bool:
         return isinstance(serialized, dict) and bool(serialized.get('_is_enum', False))
